@@ -24,6 +24,8 @@ func main() {
 		runC12(*n, *out, *replay)
 	case "c13":
 		runC13(*n, *out, *replay)
+	case "flusher":
+		runFlusher(*n, *out, *replay)
 	case "lockrace":
 		runLockRaceCmd(*n, *out, *replay)
 	case "linkloss":
